@@ -453,6 +453,11 @@ class AsyncIterableQueue(IterableQueue[_ValueT]):
   async def async_get_batch(self):
     """Gets a batch of elements from the queue."""
 
+  async def async_maybe_stop(self):
+    """Stops the enqueuers when the queue can be stopped."""
+    if isinstance(self, types.Stoppable):
+      self.maybe_stop()
+
   def async_dequeue_as_iterator(
       self, num_steps: int = -1
   ) -> AsyncIterator[_ValueT]:
@@ -891,8 +896,9 @@ class DequeueIterator(Iterator[_ValueT], types.Stoppable):
     self._cache = collections.deque()
 
   def maybe_stop(self):
-    assert isinstance(self._iterator_queue, IteratorQueue)
-    self._iterator_queue.maybe_stop()
+    # Any queue that can be stopped, e.g., also a remote one.
+    if isinstance(self._iterator_queue, types.Stoppable):
+      self._iterator_queue.maybe_stop()
 
   def __next__(self) -> _ValueT:
     if not self._run_until_exhausted and self._cnt == self._num_steps:
@@ -1043,9 +1049,9 @@ class _AsyncDequeueIterator:
       )
       return self._cache.popleft()
     else:
-      # Like the sync iterator: an early stop releases the blocked enqueuers.
-      if isinstance(self._iterator_queue, IteratorQueue):
-        self._iterator_queue.maybe_stop()
+      # Like the sync iterator: an early stop releases the blocked enqueuers,
+      # also the ones of a remote queue.
+      await self._iterator_queue.async_maybe_stop()
       raise StopAsyncIteration()
 
   def __aiter__(self):
